@@ -334,6 +334,13 @@ class Algebra(object):
             return self.atom(("abs", self.pid(a)), self.perstep_poly(a), "abs", (a,))
         if op == "sum":
             return self.sum_of(t.a[0], env)
+        if op == "sumover" and len(t.a) == 2 and isinstance(t.a[1], tm.T) and t.a[1].op == "lam" \
+                and t.a[0].op in ("iter", "map", "zip") and self._numeric_vector(t.a[0]):
+            # Σ_{x in v} f(x) over a vector of numbers (the closed form of `fold(0, |a, x| a + f(x))`): Σ_t of the mapped vector
+            try:
+                return self.sum_of(tm.mk("map", t.a[0], t.a[1]), env)
+            except NotScalar:
+                pass
         if op == "cast":
             return self.sx(t.a[1], env)
         if op == "let":
@@ -343,6 +350,19 @@ class Algebra(object):
             # v[i] inside a comprehension over 0..n: the per-step element of v
             return self.pwx(t.a[0], dict((k, v) for k, v in env.items() if v is not POSITION) or None)
         return self.opaque(t, env)
+
+    def _numeric_vector(self, it):
+        """an iterator over a per-step vector of numbers (not over a list of records)"""
+        x = it
+        while x.op in ("map", "zip", "iter"):
+            if x.op == "iter":
+                v = x.a[0]
+                while v.op == "ite":
+                    v = v.a[1]
+                return v.op in ("vop", "vsumover", "rep", "vneg") or (v.op == "proj" and v.a[3] == "values") \
+                    or (v.op == "collect" and v.a[0].op == "map")
+            x = x.a[0]
+        return False
 
     def sxs(self, t, env):
         """Structured value: Poly or tuple of Polys."""
@@ -537,7 +557,7 @@ class Algebra(object):
             return self.pw_iter(v.a[0], env)
         if op in ("vsumover",):
             return self.atom(("elt", v.id), True, "elt", (), v)
-        if op in ("num", "add", "sub", "mul", "div", "neg", "min", "max", "abs", "sum", "bv", "tproj"):
+        if op in ("num", "add", "sub", "mul", "div", "neg", "min", "max", "abs", "sum", "bv", "tproj", "sumover"):
             return self.sx(v, env)
         return self.atom(("elt", v.id), True, "elt", (), v)
 
